@@ -3,6 +3,7 @@
 package extendeddaemonsetreplicaset
 
 import (
+	podutils "github.com/DataDog/extendeddaemonset/pkg/controller/utils/pod"
 	corev1 "k8s.io/api/core/v1"
 	metav1 "k8s.io/apimachinery/pkg/apis/meta/v1"
 	"k8s.io/apimachinery/pkg/util/intstr"
@@ -365,4 +366,48 @@ func ZZ_C17_canaryRoleCleanupErrors() {
 	nondet.Observe("error", err != nil)
 	nondet.Observe("cleanupFalse", cleanupFalse)
 	nondet.Reach("C17.canary-cleanup.one-of-two-failed", failedCleanup == 1 && c.Count("delete", "Pod") == 2)
+}
+
+// ZZ_C17_parallelCreationsShareNoMutableState: "a single sync creates ... pods in parallel; there is no data
+// race among these goroutines" when the template gives the pod builder something to do with the package's
+// shared tables: the template already lists none / the first / a middle one / two of the standard DaemonSet
+// tolerations.  Three creations in one sync (the engine's lockset check reports any cell two of the
+// goroutines write without a common lock); afterwards the shared list of standard tolerations is what it
+// was, and every created pod carries each standard toleration.
+func ZZ_C17_parallelCreationsShareNoMutableState() {
+	c, ds, rsNew, _ := zzStore(3)
+	ds.Status.ActiveReplicaSet = rsNew.Name
+	ds.Spec.Strategy.RollingUpdate.SlowStartAdditiveIncrease = &intstr.IntOrString{Type: intstr.Int, IntVal: 5}
+	std := podutils.StandardDaemonSetTolerations
+	before := append([]corev1.Toleration{}, std...)
+	switch nondet.String("template.tolerations", "none", "first-standard", "middle-standard", "two-standard") {
+	case "first-standard":
+		rsNew.Spec.Template.Spec.Tolerations = []corev1.Toleration{std[0]}
+	case "middle-standard":
+		rsNew.Spec.Template.Spec.Tolerations = []corev1.Toleration{{Key: "dedicated", Operator: corev1.TolerationOpExists}, std[2]}
+	case "two-standard":
+		rsNew.Spec.Template.Spec.Tolerations = []corev1.Toleration{std[1], std[len(std)-1]}
+	}
+	_, err := zzReconcile(zzReconciler(c, nondet.Bool("nodeAffinitySupported")), zzNS, rsNew.Name)
+	nondet.Assert("C17.shared.noerror", err == nil)
+	nondet.Assert("C17.shared.three-creations", c.Count("create", "Pod") == 3)
+	same := len(podutils.StandardDaemonSetTolerations) == len(before)
+	if same {
+		for i := range before {
+			g := podutils.StandardDaemonSetTolerations[i]
+			same = same && g.Key == before[i].Key && g.Operator == before[i].Operator && g.Effect == before[i].Effect && g.Value == before[i].Value
+		}
+	}
+	nondet.Assert("C17.shared.standard-tolerations-list-unchanged", same)
+	for _, p := range c.Pods {
+		for _, want := range before {
+			found := false
+			for _, t := range p.Spec.Tolerations {
+				if t.Key == want.Key && t.Operator == want.Operator && t.Effect == want.Effect {
+					found = true
+				}
+			}
+			nondet.Assert("C17.shared.every-pod-carries-the-standard-tolerations", found)
+		}
+	}
 }
